@@ -160,12 +160,12 @@ PROPS = {
         explanation='character-reference half of C02: info::char_from_char10/16 return Ok(c) only when the parsed number is c and c matches production [2] Char (WFC Legal Character), reject unparsable digits, accept every legal one; verified modularly against the contract of xmlchar::is_char, which is re-verified in the same unit',
     ),
     'C04': dict(
-        standin_ops=['info.escape'],
+        standin_ops=['info.escape', 'info.roundtrip'],
         verus_units=['info_helpers'],
         level='proof',
         trusted_base=TRUSTED_VERUS,
         assumptions=[A1, A2 + ' (str::contains("\\""), format! with one quote on each side)', A8],
-        not_decided='every Display impl over the live graph and the re-parse; values containing both quote characters (escape has no answer for them; callers re-parse and fail in set_values)',
+        not_decided='every Display impl over the live graph and the re-parse (fmt::Formatter and the nom grammar are outside both verifiers): the thorough tier samples them with a bounded print / parse / print grid of 40 documents (info.roundtrip), which proves nothing; values containing both quote characters (escape has no answer for them; callers re-parse and fail in set_values)',
         explanation='quote selection of the printer: info::escape(v) returns q + v + q with q a quote character that does not occur in v, for every v that does not contain both quote characters, so the literal re-reads as v under productions [10]-[12]',
     ),
     'C11': dict(
